@@ -136,6 +136,10 @@ pub fn expand_env(cs: &[u8]) -> Option<Vec<u8>> {
             if rest.starts_with(b":-") { out.extend_from_slice(&rest[2..]); i += 3 + close; continue; }
             if rest.starts_with(b":+") { i += 3 + close; continue; }
           }
+          // any other body: systemd takes everything up to the first '}' as the variable name, finds nothing, and
+          // erases the reference (it does not nest and does not validate the name)
+          i += 3 + close;
+          continue;
         }
       }
     }
@@ -249,7 +253,7 @@ pub fn run(opts: &Opts) -> i32 {
     ("a b  c", vec!["a", "b", "c"]),
     ("'a b' \"c d\" e\\sf", vec!["a b", "c d", "e f"]),
     ("x\\x2ay \\u00e9 \\101 \\q", vec!["x*y", "é", "A", "\\q"]),
-    ("%% %I $$ ${X} $X a$X ${X:-d}", vec!["%", INSTANCE_TOKEN, "$", "", "a$X", "d"]),
+    ("%% %I $$ ${X} $X a$X ${X:-d} b${A$${B}c", vec!["%", INSTANCE_TOKEN, "$", "", "a$X", "d", "bc"]),
     ("a'b c'd", vec!["ab cd"]),
     ("a \\\n  b \\\n# c\n  d", vec!["a", "b", "d"]),
   ];
@@ -308,6 +312,13 @@ pub fn run(opts: &Opts) -> i32 {
         s.push(c);
       }
       pats.push(s);
+    }
+    // a share of the cases: strings over the expansion syntax only (ordered relations between $, {, }, :, -, +, %)
+    if rng.chance(1, 5) {
+      let syn: Vec<char> = "${}:-+%a_I \\'\"".chars().collect();
+      for p in pats.iter_mut() { let n = rng.range(2, 12); *p = (0..n).map(|_| *rng.pick(&syn)).collect(); }
+      pats.retain(|p| !p.is_empty());
+      if pats.is_empty() { pats.push("$".to_string()); }
     }
     out.nontrivial(hash64(&pats));
     if out.wants_sample() && rng.chance(1, 2000) {
